@@ -125,7 +125,7 @@ def case(args):
                     out['violations'].append(x)
             if len(out['samples']) < 1:
                 out['samples'].append({'op': op, 'events': n, 'status': r.status})
-    except Exception:
+    except BaseException:      # incl. an escaped RequestHang: a dead pool worker would hang the check
         out['error'] = traceback.format_exc()
     return out
 
